@@ -7,7 +7,6 @@ import (
 	"fmt"
 	"math/rand"
 	"net"
-	"sort"
 	"strings"
 	"sync"
 	"time"
@@ -249,20 +248,7 @@ func Explore(c *core.Ctx, k Config, edges bool, num, depth int, rng *rand.Rand, 
 		if err != nil || r.Violated != "" || r.ErrText != "" || r.TimedOut {
 			core.Fatalf("write-queue simulation failed: %v %s", err, r.Brief())
 		}
-		sort.Strings(lines)
-		for i, l := range lines {
-			if i+1 < len(lines) && (lines[i+1] == l || strings.HasPrefix(lines[i+1], l+",")) {
-				continue
-			}
-			var h []json.RawMessage
-			if json.Unmarshal([]byte(l+"]"), &h) == nil && len(h) > 0 {
-				walks = append(walks, h)
-			}
-		}
-		rng.Shuffle(len(walks), func(i, j int) { walks[i], walks[j] = walks[j], walks[i] })
-		if len(walks) > num {
-			walks = walks[:num]
-		}
+		walks = append(walks, core.Behaviours(lines, num, rng)...)
 		c.Add("simulated_schedules", int64(len(walks)))
 	}
 	var traces []*core.Trace
